@@ -852,17 +852,16 @@ where
 
 fn select_op<A>(s: &BoolArray, a: &A, b: &A) -> A
 where
-    A: ArrayValidExt + ArrayFromDataExt,
+    A: Array,
 {
     assert_eq!(a.len(), b.len());
-    let it = a
-        .raw_iter()
-        .zip(b.raw_iter())
-        .zip(s.raw_iter())
-        .map(|((a, b), s)| if *s { a } else { b });
-    let mut valid = s.get_valid_bitmap().and(a.get_valid_bitmap());
-    valid.or(&s.get_valid_bitmap().not_then_and(b.get_valid_bitmap()));
-    A::from_data(it, valid)
+    // CASE WHEN s THEN a ELSE b: the ELSE branch is taken when `s` is false *or NULL*, and
+    // the result is NULL exactly when the chosen branch is.
+    let mut builder = A::Builder::with_capacity(a.len());
+    for ((s, a), b) in s.iter().zip(a.iter()).zip(b.iter()) {
+        builder.push(if s == Some(&true) { a } else { b });
+    }
+    builder.finish()
 }
 
 fn ternary_op<A, B, C, O, F, V>(a: &A, b: &B, c: &C, f: F) -> O
